@@ -72,6 +72,7 @@ def run(pid, tier, seed):
     verdict = V.Verdict(pid)
     work = V.workdir("load")
     zl, cases = corpus(work, tier, seed)
+    ancient = set(n for n, p in cases if tzgen.is_ancient_dst(open(p, "rb").read()))
     fams = "limits,break,make,trans,twin,small"
     outs = {}
     nsh = max(2, V.NCPU - 2)
@@ -112,16 +113,19 @@ def run(pid, tier, seed):
                     d[cur].append(re.sub(r'"z":\d+', '"z":0', ln))
         return d
     if not crashed and all(t in outs for t in "ABPZ"):
-        base = canon(outs["A"])
-        for t in "BPZ":
-            other = canon(outs[t])
+        # heap pre-fill: A vs B (same sanitizer build); stack pre-fill: P vs Z (same plain build). A and P are
+        # not compared with each other: where the sanitizer build traps (ub = 1, reported on its own) a plain
+        # build computes something.
+        for ta, tb in (("A", "B"), ("P", "Z")):
+            base, other = canon(outs[ta]), canon(outs[tb])
             for name in base:
                 if base[name] != other.get(name):
                     a, b = base[name], other.get(name, [])
                     i = next((i for i in range(min(len(a), len(b))) if a[i] != b[i]), min(len(a), len(b)))
-                    verdict.violation("nondeterministic:" + name.split("#")[0].split(":", 1)[-1][:40],
-                                      "zone %s: outcome differs between pre-fill run A and %s at event %d: %s | %s"
-                                      % (name, t, i, (a[i] if i < len(a) else "<end>")[:200], (b[i] if i < len(b) else "<end>")[:200]))
+                    fault = "ancient-dst-zone" if name in ancient else re.sub(r"[-+]?\d{4,}", "N", name.split("#")[0].split(":", 1)[-1])[:40]
+                    verdict.violation("nondeterministic:" + fault,
+                                      "zone %s: outcome differs between pre-fill runs %s and %s at event %d: %s | %s"
+                                      % (name, ta, tb, i, (a[i] if i < len(a) else "<end>")[:200], (b[i] if i < len(b) else "<end>")[:200]))
     # ---- the verdict run against the specification
     events = st = tr = 0
     classes = collections.Counter()
@@ -155,6 +159,8 @@ def run(pid, tier, seed):
             e["zone"] = zn
             fault = zn.split("#")[0].split(":", 1)[-1]
             fault = re.sub(r"[-+]?\d{4,}", "N", fault)
+            if zn in ancient:
+                fault = "ancient-dst-zone"
             verdict.violation("%s:%s:%s" % (e["e"], "ub" if e.get("ub") else "result", fault[:40]),
                               "mutated file %s: event rejected by ZoneTrace: %s" % (zn, json.dumps(e)[:300]), e)
         if len(samples) < 4:
